@@ -428,7 +428,10 @@ fn build_sources(opts: &Opts, rng: &mut Rng) -> Vec<(String, Layout, Vec<Vec<Key
   }
   if want("enum") && (thorough || opts.flag("enumerated")) {
     let ms = h_layouts::enumerated_mappings();
-    let stride = opts.num("enum-stride", 1) as usize;
+    // all 1 428 single-mapping layouts, and every `stride`-th of the 2.04 M ordered pairs (the offset
+    // moves with the seed, so different seeds cover different pairs; stride 1 = the whole family)
+    let stride = opts.num("enum-stride", 97) as usize;
+    let offset = (opts.num("seed", 1) as usize) % stride.max(1);
     let mut idx = 0usize;
     for m in &ms {
       res.push((format!("enum:1:{}", idx), Layout { mappings: vec![m.clone()] }, vec![]));
@@ -438,13 +441,13 @@ fn build_sources(opts: &Opts, rng: &mut Rng) -> Vec<(String, Layout, Vec<Vec<Key
     for a in &ms {
       for b in &ms {
         c += 1;
-        if c % stride != 0 { continue; }
+        if c % stride != offset { continue; }
         res.push((format!("enum:2:{}", c), Layout { mappings: vec![a.clone(), b.clone()] }, vec![]));
       }
     }
   }
   if want("random") {
-    let n = opts.num("random", if thorough { 20000 } else { 600 });
+    let n = opts.num("random", if thorough { 12000 } else { 600 });
     for i in 0..n {
       if i % 3 == 2 {
         res.push((format!("random:absrich:{}", i), h_layouts::absorbing_rich_layout(rng), vec![]));
